@@ -37,6 +37,11 @@ fn lemmatize(word: &str) -> &str {
     }
 }
 
+/// True if `group` (the digits about to be multiplied by a singular scale word) is exactly one.
+fn is_one(group: &[u8]) -> bool {
+    matches!(group.split_last(), Some((b'1', rest)) if rest.iter().all(|&c| c == b'0'))
+}
+
 impl Default for Italian {
     fn default() -> Self {
         Self {
@@ -179,7 +184,7 @@ impl LangInterpreter for Italian {
                 }
             }
             "milione" if b.is_range_free(6, 8) => {
-                if b.len() != 1 || b.peek(1) != b"1" {
+                if !is_one(b.peek(6)) {
                     Err(Error::NaN)
                 } else {
                     b.shift(6)
@@ -200,7 +205,7 @@ impl LangInterpreter for Italian {
                 }
             }
             "miliardo" => {
-                if b.len() != 1 || b.peek(1) != b"1" {
+                if !is_one(b.peek(9)) {
                     Err(Error::NaN)
                 } else {
                     b.shift(9)
@@ -221,7 +226,7 @@ impl LangInterpreter for Italian {
                 }
             }
             "bilione" => {
-                if b.len() != 1 || b.peek(1) != b"1" {
+                if !is_one(b.peek(12)) {
                     Err(Error::NaN)
                 } else {
                     b.shift(12)
